@@ -181,6 +181,17 @@ NameViol(n, qname) ==
 
 \* items of an attribute value or of content; ctx in {"attr", "text", "default"}
 \* entsAtUse: entity table against which references are resolved
+\* An internal general entity referenced in CONTENT is well-formed only if its replacement text matches the production
+\* content [43] (4.3.2): this machine does not parse replacement texts, but it knows a few that certainly do not -
+\* a start-tag without its end-tag, an end-tag alone, a tag cut short.
+BadReplacement == { <<60, 98, 62>>,    \* <b>
+                <<60, 47, 98, 62>>,    \* </b>
+                <<60, 98>>,    \* <b
+                <<97, 60, 98, 62, 99>> }   \* a<b>c
+EntValueOf(ents, n) == LET ix == { i \in 1..Len(ents) : ents[i].n = n }
+                       IN  IF ix = {} THEN <<>> ELSE ents[CHOOSE i \in ix : \A j \in ix : i <= j].v
+LitOf(v) == IF \A i \in 1..Len(v) : v[i].t \in {"c", "r"} THEN [i \in 1..Len(v) |-> v[i].c] ELSE <<>>
+
 ItemViol(it, ctx, st, entsAtUse) ==
   CASE it.t = "c" -> If(~IsChar(it.c), "BadChar")
     [] it.t = "r" -> If(~IsChar(it.c), "BadCharRef")
@@ -193,6 +204,7 @@ ItemViol(it, ctx, st, entsAtUse) ==
          ELSE IF ~Known(entsAtUse, it.n)
               THEN If(~st.extSubset, "UndeclaredEntity")
          ELSE IF ~Acyclic(entsAtUse, <<it>>) THEN "EntityCycleOrUndeclared"
+         ELSE IF ctx = "text" /\ LitOf(EntValueOf(entsAtUse, it.n)) \in BadReplacement THEN "ReplacementNotContent"
          ELSE If(ctx # "text" /\ HasLt(<<it>>, entsAtUse, Len(entsAtUse) + 1), "LtInAttr")
 
 ItemsViol(items, ctx, st, entsAtUse) ==
